@@ -48,7 +48,7 @@ func (prop) Decode(b []byte) (driver.Scenario, error) {
 	return &sc, err
 }
 
-var keyKinds = []string{"int64", "int64", "string", "string", "float64", "float32", "arr2i32", "struct", "iface", "iface", "big", "int8"}
+var keyKinds = []string{"int64", "int64", "string", "string", "string", "float64", "float32", "complex128", "arr2i32", "arr3i32", "struct", "structf", "iface", "iface", "big", "int8"}
 var elemKinds = []string{"int64", "int64", "int64", "empty", "big200", "string"}
 
 // ---- generation ------------------------------------------------------------------
@@ -202,8 +202,10 @@ func strKey(prefix string, ki int) string {
 		return ""
 	}
 	s := prefix + strconv.Itoa(ki)
-	if ki%5 == 0 {
-		s += strings.Repeat("-pad", 12) // long strings take the bulk path of memhash
+	// lengths spread over 2..21, every 7th key much longer (bulk path of memhash)
+	s += strings.Repeat("x", ki*7%17)
+	if ki%7 == 0 {
+		s += strings.Repeat("-pad", 12)
 	}
 	return s
 }
@@ -211,13 +213,30 @@ func strKey(prefix string, ki int) string {
 // retained keeps every buffer whose address is stored inside map memory alive
 // for the whole run: the arenas are not scanned by Go's collector.
 var retained [][]byte
+var garbageSeq int
+
+// keyBuf returns a buffer for a key of n bytes followed by bytes that differ from call to call.
+func keyBuf(n int) []byte {
+	garbageSeq++
+	b := make([]byte, n+24)
+	for i := n; i < len(b); i++ {
+		b[i] = byte(garbageSeq*167 + i*31 + 3)
+	}
+	return b
+}
 
 func retain(b []byte) []byte { retained = append(retained, b); return b }
 
 func putString(b []byte, s string) {
 	// a string header pointing at fresh storage: equal strings never share memory
-	st := retain(make([]byte, len(s)+1))
+	// the bytes after the string differ from copy to copy: a hash that reads past
+	// the end must not get away with it
+	garbageSeq++
+	st := retain(make([]byte, len(s)+24))
 	copy(st, s)
+	for i := len(s); i < len(st); i++ {
+		st[i] = byte(garbageSeq*131 + i*29 + 7)
+	}
 	*(*unsafe.Pointer)(unsafe.Pointer(&b[0])) = unsafe.Pointer(&st[0])
 	*(*int)(unsafe.Pointer(&b[8])) = len(s)
 }
@@ -229,6 +248,20 @@ func getString(p unsafe.Pointer) string {
 		return ""
 	}
 	return string(unsafe.Slice((*byte)(ptr), n))
+}
+
+func c128Of(ki int) (float64, float64) {
+	switch ki {
+	case 0:
+		return 0, 0
+	case 1:
+		return math.Copysign(0, -1), 0
+	case 2:
+		return math.NaN(), 1
+	case 3:
+		return 1, math.NaN()
+	}
+	return float64(ki), float64(-ki) / 2
 }
 
 func f64Of(ki int) float64 {
@@ -252,11 +285,18 @@ func keyClass(kt string, ki int) int {
 	switch kt {
 	case "int8":
 		return ki % 256
-	case "float64", "float32":
+	case "float64", "float32", "complex128":
 		if ki == 1 {
 			return 0
 		}
 		if ki == 2 || ki == 3 {
+			return -1
+		}
+	case "structf":
+		switch ki % 6 {
+		case 1:
+			return ki - 1
+		case 2, 3:
 			return -1
 		}
 	case "iface":
@@ -307,38 +347,38 @@ func ifaceDyn(ki int) (t *abi.Type, store []byte) {
 func encodeKey(kt string, ki int) unsafe.Pointer {
 	switch kt {
 	case "int64":
-		b := make([]byte, 8)
+		b := keyBuf(8)
 		binary.LittleEndian.PutUint64(b, uint64(int64(ki)*7919-1000))
 		return unsafe.Pointer(&b[0])
 	case "int8":
-		b := make([]byte, 1)
+		b := keyBuf(1)
 		b[0] = byte(ki)
 		return unsafe.Pointer(&b[0])
 	case "string":
-		b := make([]byte, 16)
+		b := keyBuf(16)
 		putString(b, strKey("k", ki))
 		return unsafe.Pointer(&b[0])
 	case "float64":
-		b := make([]byte, 8)
+		b := keyBuf(8)
 		binary.LittleEndian.PutUint64(b, math.Float64bits(f64Of(ki)))
 		return unsafe.Pointer(&b[0])
 	case "float32":
-		b := make([]byte, 4)
+		b := keyBuf(4)
 		binary.LittleEndian.PutUint32(b, math.Float32bits(float32(f64Of(ki))))
 		return unsafe.Pointer(&b[0])
 	case "arr2i32":
-		b := make([]byte, 8)
+		b := keyBuf(8)
 		binary.LittleEndian.PutUint32(b, uint32(ki))
 		binary.LittleEndian.PutUint32(b[4:], uint32(-ki))
 		return unsafe.Pointer(&b[0])
 	case "struct":
-		b := make([]byte, 24)
+		b := keyBuf(24)
 		binary.LittleEndian.PutUint32(b, uint32(ki%3))
 		binary.LittleEndian.PutUint32(b[4:], 0xdeadbeef+uint32(ki)*3) // padding: must be ignored
 		putString(b[8:], strKey("s", ki/3+1))
 		return unsafe.Pointer(&b[0])
 	case "iface":
-		b := make([]byte, 16)
+		b := keyBuf(16)
 		t, st := ifaceDyn(ki)
 		*(**abi.Type)(unsafe.Pointer(&b[0])) = t
 		if st != nil {
@@ -347,8 +387,28 @@ func encodeKey(kt string, ki int) unsafe.Pointer {
 			*(*unsafe.Pointer)(unsafe.Pointer(&b[8])) = unsafe.Pointer(&ptrCells[ki%len(ptrCells)])
 		}
 		return unsafe.Pointer(&b[0])
+	case "complex128":
+		b := keyBuf(16)
+		re, im := c128Of(ki)
+		binary.LittleEndian.PutUint64(b, math.Float64bits(re))
+		binary.LittleEndian.PutUint64(b[8:], math.Float64bits(im))
+		return unsafe.Pointer(&b[0])
+	case "arr3i32":
+		b := keyBuf(12)
+		binary.LittleEndian.PutUint32(b, uint32(ki))
+		binary.LittleEndian.PutUint32(b[4:], uint32(ki*3+1))
+		binary.LittleEndian.PutUint32(b[8:], uint32(-ki))
+		return unsafe.Pointer(&b[0])
+	case "structf":
+		b := keyBuf(16)
+		binary.LittleEndian.PutUint64(b, math.Float64bits(f64Of(ki%6)))
+		b[8] = byte(ki / 6)
+		for i := 9; i < 16; i++ {
+			b[i] = byte(garbageSeq + i) // padding: must be ignored
+		}
+		return unsafe.Pointer(&b[0])
 	case "big":
-		b := make([]byte, 160)
+		b := keyBuf(160)
 		for i := 0; i < 20; i++ {
 			binary.LittleEndian.PutUint64(b[i*8:], uint64(ki)*uint64(i+1)+uint64(i))
 		}
@@ -383,6 +443,26 @@ func decodeKey(kt string, p unsafe.Pointer, pool map[string]int) (int, string) {
 		}
 	case "int8":
 		sig = fmt.Sprintf("%x", *(*uint8)(p))
+	case "complex128":
+		re, im := *(*float64)(p), *(*float64)(unsafe.Add(p, 8))
+		if re != re || im != im {
+			return -1, "NaN"
+		}
+		if re == 0 && im == 0 {
+			return 0, "0"
+		}
+		sig = fmt.Sprintf("%x|%x", math.Float64bits(re), math.Float64bits(im))
+	case "arr3i32":
+		sig = fmt.Sprintf("%x|%x", *(*uint64)(p), *(*uint32)(unsafe.Add(p, 8)))
+	case "structf":
+		f := *(*float64)(p)
+		if f != f {
+			return -1, "NaN"
+		}
+		if f == 0 {
+			f = 0 // -0 and +0 are the same key
+		}
+		sig = fmt.Sprintf("%x|%d", math.Float64bits(f+0), *(*uint8)(unsafe.Add(p, 8)))
 	case "float32":
 		f := *(*float32)(p)
 		if f != f {
@@ -530,6 +610,7 @@ func (prop) Run(scx driver.Scenario, ch *sim.Choices, keep bool) *driver.Result 
 	}
 	maprt.ResetArena()
 	retained = nil
+	garbageSeq = 0
 	maprt.SetHashKey(uintptr(sc.HashKey[0]), uintptr(sc.HashKey[1]), uintptr(sc.HashKey[2]), uintptr(sc.HashKey[3]))
 	nrand := 0
 	maprt.Fastrand = func() uint32 {
